@@ -21,7 +21,7 @@ MANIFEST = {
     'technique': 'solver-driven bounded exploration of the real Python code (z3 decides every input choice; coverage certificate by decision-tree audit), exact recomputation oracle',
 }
 
-POOL1 = ['', 'a', 'b', '{}']
+POOL1 = ['', 'a', ' ', '{}']      # incl. a whitespace-only value: an ordinary level, not the empty-string symbol
 POOL2 = ['', 'a', 'b']
 BOUNDS = {'quick': [(4, 1), (3, 2)], 'thorough': [(5, 1), (4, 2)]}
 MISS = [',{}', 'a', 'a,a', ',{},']      # the symbol SET is given as a comma-separated list: a symbol may be named more than once
